@@ -47,7 +47,43 @@ struct W {
 const VOCAB: &[&str] = &[
     "let", "in", "rec", "if", "then", "else", "match", "with", "type", "do", "seq", "forall", "import!", "\\", "->", "=", "|", ":", ".", ",", "(", ")", "{", "}", "[", "]", "..", "?", "@", "#[", "#[infix(left, 4)]", "#[implicit]",
     "+", "-", "*", "/", "==", "<", "<|", "|>", ">>=", "&&", "||", "#Int+", "#Float*", "x", "y", "f", "Some", "None", "True", "Int", "String", "a", "_", "1", "0", "42", "3.5", "1b", "\"s\"", "\"\"", "'c'", "r#\"raw\"#", "//", "/* c */", "///", "//! m", "std.prelude", "x.y.z", "(+)", "0x1F",
+    // macros and attributes handled by macro expansion
+    "convert_effect!", "convert_variant!", "lift_io!", "import! std.", "#[derive(Deserialize)]", "#[derive(Serialize)]", "#[derive(Eq, Show)]", "#[derive(Show, Eq, Serialize, Deserialize)]", "#[derive(", "#[doc(hidden)]", "type T = {}",
+    "type T = | A | B Int", "type R = { x : Int }", "r.", "{}", "?x", "é",
 ];
+
+/// Short inputs that use the built-in macros and derive attributes with the wrong number or kind
+/// of arguments, on small and degenerate type declarations
+fn macro_misuse(rng: &mut Rng) -> String {
+    const MACROS: &[&str] = &["convert_effect!", "convert_variant!", "lift_io!", "import!"];
+    const ARGS: &[&str] = &["1", "x", "?x", "\"s\"", "(1, 2)", "{ }", "{ a = 1 }", "std.prelude", "Some", "(\\y -> y)", "[1]", "r.", "a.b", "_"];
+    const DERIVES: &[&str] = &["Eq", "Show", "Serialize", "Deserialize", "Ord", "Functor", "Nope"];
+    const TYPES: &[&str] = &["{}", "{ x : Int }", "| A", "| A | B Int", "| A a", "Int", "a -> a", "{ x : Int, .. }", "forall a . { x : a }", "| A { x : Int }", "()"];
+    let mut s = String::new();
+    for _ in 0..(1 + rng.below(3)) {
+        match rng.below(3) {
+            0 => {
+                s.push_str(*rng.pick(MACROS));
+                for _ in 0..rng.below(4) {
+                    s.push(' ');
+                    s.push_str(*rng.pick(ARGS));
+                }
+                s.push('\n');
+            }
+            1 => {
+                let n = 1 + rng.below(3);
+                let ds: Vec<&str> = (0..n).map(|_| *rng.pick(DERIVES)).collect();
+                s.push_str(&format!("#[derive({})]\ntype T{} {} = {}\n", ds.join(", "), rng.below(3), if rng.chance(1, 3) { "a" } else { "" }, rng.pick(TYPES)));
+            }
+            _ => {
+                s.push_str(&format!("let v{} = {} {}\n", rng.below(3), rng.pick(MACROS), rng.pick(ARGS)));
+            }
+        }
+    }
+    s.push_str(*rng.pick(&["()", "1", "T0", "", "v0", "{ T0 }"]));
+    s.push('\n');
+    s
+}
 
 fn random_text(rng: &mut Rng) -> String {
     let n = rng.below(400);
@@ -188,7 +224,8 @@ impl Worker for W {
             }
             self.files = Some(v);
         }
-        let (family, text) = match rng.below(8) {
+        let (family, text) = match rng.below(9) {
+            8 => ("macro-misuse", macro_misuse(rng)),
             0 | 1 => ("random-utf8", random_text(rng)),
             2 | 3 => ("token-soup", token_soup(rng)),
             4 | 5 => {
